@@ -29,8 +29,8 @@ ENUM = {
 }
 POOL = 12
 CHUNK = 4000
-RULE = ("enc: every (injective vocabulary of <= 3 of 5 (quick) / 6 (thorough) tags over terms sharing a name or a label, plus tags on terms sharing a URI under different names / a name under different URIs tags whose values differ only by surrounding whitespace tags on terms that differ only in an extra attribute and tags on terms with every optional field set (the aliased type / range included), tag list of <= 3 with "
-        "repeats and outsiders, two quarter-score patterns) of the TLA+ enumeration, plus random vocabularies of <= 8 of 21 "
+RULE = ("enc: every (injective vocabulary of <= 3 of 5 (quick) / 6 (thorough) tags over terms sharing a name or a label, plus tags on terms sharing a URI under different names / a name under different URIs tags whose values differ only by surrounding whitespace tags on terms that differ only in an extra attribute and tags on terms with every optional field set (the aliased type / range included) and tags on terms whose extra attribute holds a loosely typed value (1 / 1.0 / True: one tag; tuple / list: two tags), tag list of <= 3 with "
+        "repeats and outsiders, two quarter-score patterns) of the TLA+ enumeration, plus random vocabularies of <= 8 of 26 "
         "tags with lists of <= 8; pair: every ordered pair of freshly built objects of the eight hashable classes over two- to "
         "four-value field domains, plus model-equal (quick) / at most one field apart (thorough) pairs whose members were "
         "derived from an already hashed object by model_copy(update), attribute assignment, deep copy or a dump/validate "
@@ -62,10 +62,19 @@ _TERMS = [
     dict(name="n6", label="l6", definition="d", uri="u6", comment="c", see="s", subproperty_of="sp",
          subclass_of="sc", domain="dm", domain_includes="di", range="xsd:string", range_includes="ri", member_of="mo",
          instance_of="io", equivalent_property="ep", description="ds", scope_note="sn"),
+    # T12..T14: T1 plus an extra attribute holding ONE value typed three ways (1 == 1.0 == True): equal terms
+    dict(name="n1", label="l1", definition="d", version=1),
+    dict(name="n1", label="l1", definition="d", version=1.0),
+    dict(name="n1", label="l1", definition="d", version=True),
+    # T15, T16: a tuple is not a list: two different terms whose JSON text is the same
+    dict(name="n1", label="l1", definition="d", parts=(1, 2)),
+    dict(name="n1", label="l1", definition="d", parts=[1, 2]),
 ]
 _VALUES = ["a", "b", "c", "a ", " a"]          # the last two differ from "a" only by surrounding whitespace
 _UTAG = [(1, 1), (1, 2), (2, 1), (3, 1), (4, 1), (4, 2), (2, 2), (3, 2), (1, 3), (2, 3), (3, 3), (4, 3),
-         (5, 1), (6, 1), (7, 1), (1, 4), (1, 5), (8, 1), (9, 1), (10, 1), (11, 1)]
+         (5, 1), (6, 1), (7, 1), (1, 4), (1, 5), (8, 1), (9, 1), (10, 1), (11, 1),
+         (12, 1), (13, 1), (14, 1), (15, 1), (16, 1)]
+_TERM_REP = [1, 2, 3, 4, 5, 6, 7, 8, 9, 10, 11, 12, 12, 12, 15, 16]      # Encoding!TermRep (only the case generator uses it)
 
 
 _WRITE = {"explicit": False, "extras": None}      # how terms / objects are written down inside a _written(...) block
@@ -113,6 +122,10 @@ def _tag(u, prov="fresh"):
         return data.Tag(term=_term(t), value=_VALUES[v - 1])
 
 
+def _same_typed(x, y):
+    return type(x) is type(y) and x == y
+
+
 def _which(tag):
     """Universe number of a tag object (0 = none of them), by its visible fields."""
     if not isinstance(tag, data.Tag):
@@ -121,7 +134,8 @@ def _which(tag):
         d = _TERMS[t - 1]
         if (tag.value == _VALUES[v - 1] and tag.term.name == d["name"] and tag.term.label == d["label"]
                 and tag.term.uri == d.get("uri") and (tag.term.model_extra or {}).get("status") == d.get("status")
-                and tag.term.type_of_term == d.get("type", "property")):
+                and tag.term.type_of_term == d.get("type", "property")
+                and all(_same_typed((tag.term.model_extra or {}).get(k), d.get(k)) for k in ("version", "parts"))):
             return u
     return 0
 
@@ -273,13 +287,18 @@ def execute(case):
 
 
 def random_cases(rng, tier):
-    """Larger vocabularies (<= 8 of all 21 universe tags) and longer lists (<= 8) than TLC enumerates."""
+    """Larger vocabularies (<= 8 of all 26 universe tags) and longer lists (<= 8) than TLC enumerates."""
     n = 1500 if tier == "quick" else 15000
     for _ in range(n):
         nv = rng.randrange(0, 9)
-        vocab = rng.sample(range(1, 22), nv)
+        vocab, seen = [], set()
+        for u in rng.sample(range(1, 27), 26):               # distinct TAGS: one per class of equal universe tags
+            key = (_TERM_REP[_UTAG[u - 1][0] - 1], _UTAG[u - 1][1])
+            if len(vocab) < nv and key not in seen:
+                seen.add(key)
+                vocab.append(u)
         lt = rng.randrange(0, 9)
-        pool = vocab if (vocab and rng.random() < 0.3) else list(range(1, 22))
+        pool = vocab if (vocab and rng.random() < 0.3) else list(range(1, 27))
         tags = [rng.choice(pool) for _ in range(lt)]
         if tags and rng.random() < 0.5:           # force repeats
             tags[rng.randrange(lt)] = tags[0]
@@ -309,9 +328,9 @@ MANIFEST = {
              "(constructor; hashed donor then model_copy(update) / attribute assignment; hashed then deep copy / dump-validate "
              "round trip; constructor with every optional field passed explicitly), and vocabulary / query tags of the encoders "
              "written differently, so a hash that remembers a derivation or sees which fields were set is refuted (controls "
-             "history/MC_Encoding_hash_memo, _hash_fields_set, _hash_extras_order, _eq_uri, _eq_nan, _key_strip_value, _hash_note_iso, _key_declared_fields, _decode_redump; Terms also carry two extra "
+             "history/MC_Encoding_hash_memo, _hash_fields_set, _hash_extras_order, _eq_uri, _eq_nan, _key_strip_value, _hash_note_iso, _key_declared_fields, _key_json_text, _decode_redump; Terms also carry two extra "
              "attributes given in either order; the encoder is also judged against the OBSERVED equality "
-             "of query and vocabulary tags, EncodeIffObservedEqual) -- plus random vocabularies of <= 8 of 21 tags "
+             "of query and vocabulary tags, EncodeIffObservedEqual) -- plus random vocabularies of <= 8 of 26 tags "
              "with lists of <= 8, and TLC validates the observations clause by clause."),
     "note": ("trusted: TLC, binder checks/c19.py (encoder; objects rebuilt for every use so identity cannot help); the hash "
              "clause is the contract, not the projection: different but sound hashes pass (mutants/C19/must_pass)"),
